@@ -37,6 +37,10 @@ LOCAL ROUTINES
 */
 
 #include "hdf_priv.h"
+#include "hfile_priv.h"
+
+/* look a bit-access id up only if it is one */
+#define HAbit_object(id) ((bitrec_t *)(HAatom_group(id) == BITIDGROUP ? HAatom_object(id) : NULL))
 #include "hbitio_priv.h"
 #include "hfile_priv.h"
 
@@ -253,7 +257,7 @@ Hbitappendable(int32 bitid)
     /* clear error stack and check validity of file id */
     HEclear();
 
-    if ((bitfile_rec = HAatom_object(bitid)) == NULL)
+    if ((bitfile_rec = HAbit_object(bitid)) == NULL)
         HRETURN_ERROR(DFE_ARGS, FAIL);
 
     /* Check for write access */
@@ -290,8 +294,7 @@ Hbitappendable(int32 bitid)
 int
 Hbitwrite(int32 bitid, int count, uint32 data)
 {
-    static int32     last_bit_id = (-1);  /* the bit ID of the last bitfile_record accessed */
-    static bitrec_t *bitfile_rec = NULL;  /* access record */
+    bitrec_t *bitfile_rec; /* access record */
     int              orig_count  = count; /* keep track of orig, number of bits to output */
 
     /* clear error stack and check validity of file id */
@@ -300,11 +303,9 @@ Hbitwrite(int32 bitid, int count, uint32 data)
     if (count <= 0)
         HRETURN_ERROR(DFE_ARGS, FAIL);
 
-    /* cache the bitfile_record since this routine gets called so many times */
-    if (bitid != last_bit_id) {
-        bitfile_rec = HAatom_object(bitid);
-        last_bit_id = bitid;
-    }
+    /* (no private cache of the last record: it would outlive Hendbitaccess(); the atom layer
+       caches recent lookups anyway) */
+    bitfile_rec = HAbit_object(bitid);
 
     if (bitfile_rec == NULL)
         HRETURN_ERROR(DFE_ARGS, FAIL);
@@ -420,8 +421,7 @@ Hbitwrite(int32 bitid, int count, uint32 data)
 int
 Hbitread(int32 bitid, int count, uint32 *data)
 {
-    static int32     last_bit_id = (-1); /* the bit ID of the last bitfile_record accessed */
-    static bitrec_t *bitfile_rec = NULL; /* access record */
+    bitrec_t *bitfile_rec; /* access record */
     uint32           l;
     uint32           b = 0;      /* bits to return */
     int              orig_count; /* the original number of bits to read in */
@@ -433,11 +433,9 @@ Hbitread(int32 bitid, int count, uint32 *data)
     if (count <= 0)
         HRETURN_ERROR(DFE_ARGS, FAIL);
 
-    /* cache the bitfile_record since this routine gets called so many times */
-    if (bitid != last_bit_id) {
-        bitfile_rec = HAatom_object(bitid);
-        last_bit_id = bitid;
-    }
+    /* (no private cache of the last record: it would outlive Hendbitaccess(); the atom layer
+       caches recent lookups anyway) */
+    bitfile_rec = HAbit_object(bitid);
 
     if (bitfile_rec == NULL)
         HRETURN_ERROR(DFE_ARGS, FAIL);
@@ -554,7 +552,7 @@ Hbitseek(int32 bitid, int32 byte_offset, int bit_offset)
     HEclear();
 
     if (byte_offset < 0 || bit_offset < 0 || bit_offset > ((int)BITNUM - 1) ||
-        (bitfile_rec = HAatom_object(bitid)) == NULL || byte_offset > bitfile_rec->max_offset)
+        (bitfile_rec = HAbit_object(bitid)) == NULL || byte_offset > bitfile_rec->max_offset)
         HRETURN_ERROR(DFE_ARGS, FAIL);
 
     /* determine whether we need to seek to another block in the file */
@@ -667,7 +665,7 @@ Hendbitaccess(int32 bitfile_id, int flushbit)
     bitrec_t *bitfile_rec; /* bitfile record */
 
     /* check validity of access id */
-    bitfile_rec = HAatom_object(bitfile_id);
+    bitfile_rec = HAbit_object(bitfile_id);
     if (bitfile_rec == NULL)
         HRETURN_ERROR(DFE_ARGS, FAIL);
 
